@@ -32,8 +32,8 @@ Judge == /\ ~done /\ done' = TRUE /\ UNCHANGED l
          /\ LET e == Trace[l]  bad == Failed(e) IN
               IF bad = {} THEN TRUE
               ELSE LET i == CHOOSE j \in bad : \A k \in bad : j <= k IN
-                   IF Of10Layout(e) /\ Checks(e)[i][1] \in {"C04", "C05"}
-                   THEN PrintT(ToJson([kf |-> "KF-C04-of10-stats-layout", l |-> l, id |-> e.id, kind |-> e.tree.Type]))
+                   IF Of10Layout(e)      \* these frames are outside what the Go types can hold: a finding of C04 only
+                   THEN (IF Checks(e)[i][1] = "C04" THEN PrintT(ToJson([kf |-> "KF-C04-of10-stats-layout", l |-> l, id |-> e.id, kind |-> e.tree.Type])) ELSE TRUE)
                    ELSE PrintT(ToJson([reject |-> l, id |-> e.id, fam |-> e.fam, kind |-> e.kind, prop |-> Checks(e)[i][1], pred |-> Checks(e)[i][2],
                                        detail |-> IF Parsed(e) /\ i = 5 THEN [expected |-> e.frame, observed |-> Enc(e.obs.first.tree)] ELSE [none |-> TRUE]]))
 Next == Judge
